@@ -285,6 +285,10 @@ func genSynthExperiment(r *rand.Rand, pool []*genetics.Genome) *synthExperiment 
 	nt := r.Intn(5)
 	fitSeq := 0
 	negHuge := r.Intn(8) == 0
+	// a plateau: the champions of the whole experiment differ in the ninth decimal only, the best one recorded last
+	plateau := !negHuge && r.Intn(6) == 0
+	// the marker the library records as complexity when the phenotype of a species' best organism can not be built
+	unknownComplexity := r.Intn(6) == 0
 	for ti := 0; ti < nt; ti++ {
 		tr := experiment.Trial{Id: ti}
 		ng := r.Intn(7)
@@ -304,6 +308,9 @@ func genSynthExperiment(r *rand.Rand, pool []*genetics.Genome) *synthExperiment 
 				// a fitness that is a negated error of a diverging network: far below zero
 				fit = -(1e19 + math.Abs(r.NormFloat64())*1e22 + float64(fitSeq)*1e8)
 			}
+			if plateau {
+				fit = 15.9999990 + float64(fitSeq)*pick(r, 1e-9, 3e-8)
+			}
 			org, _ := genetics.NewOrganism(fit, g, gi)
 			sp := genetics.NewSpecies(1 + r.Intn(9))
 			sp.Age = 1 + r.Intn(30)
@@ -316,6 +323,9 @@ func genSynthExperiment(r *rand.Rand, pool []*genetics.Genome) *synthExperiment 
 			gen.Fitness, gen.Age, gen.Complexity = make(experiment.Floats, k), make(experiment.Floats, k), make(experiment.Floats, k)
 			for i := 0; i < k; i++ {
 				gen.Fitness[i], gen.Age[i], gen.Complexity[i] = r.Float64()*10, float64(1+r.Intn(20)), float64(5+r.Intn(30))
+				if unknownComplexity && r.Intn(3) == 0 {
+					gen.Complexity[i] = float64(math.MaxInt)
+				}
 			}
 			sg := synthGen{champion: snap, fitness: fit, solved: gen.Solved, diversity: k, fit: append([]float64{}, gen.Fitness...),
 				age: append([]float64{}, gen.Age...), complexity: append([]float64{}, gen.Complexity...), speciesAge: sp.Age}
